@@ -7,64 +7,64 @@ VERIF = os.path.dirname(os.path.dirname(os.path.abspath(__file__)))
 
 META = {
  "C01": dict(design="3.1", tech="call-graph reachability (VTA) from block-execution roots + forward value slices; AST map-range order-sensitivity lint",
-   text="Decides the structural mechanism of determinism: no repo-owned code reachable from block execution (ante decorators, msg servers, begin/end blockers, StateDB, precompile executors) reads wall clock / randomness / environment into anything but telemetry, ranges a map with an order-sensitive body, spawns goroutines, or uses node-local min-gas-prices outside CheckTx. This holds for every input and block at once, which no replay test can sample. It does not decide equality of app hashes as values.",
+   text="Decides the structural mechanism of determinism: no repo-owned code reachable from block execution (ante decorators, msg servers, begin/end blockers, StateDB, precompile executors) reads wall clock / randomness / environment into anything but telemetry, ranges a map with an order-sensitive body, spawns goroutines, or uses node-local min-gas-prices outside CheckTx. This holds for every input and block at once, which no replay test can sample. It does not decide equality of app hashes as values. Also decided: no sync / sync-atomic primitive (process-wide caches) in code reachable from block execution, and slices owned by a dependency are never sorted or appended to in place.",
    note="Trusts dependency code (SDK, CometBFT, upstream geth) to be deterministic; call graph = VTA over go/ssa; reports restricted to repo-owned code and the fork's *_evermint.go files."),
  "C02": dict(design="3.2", tech="sibling comparison of the copied state transition with the linked go-ethereum's; MUST-PASS/PAIR rules on the StateDB over go/ssa",
-   text="Behavioural equivalence with go-ethereum over all programs is not statically decidable; decided are necessary structural conditions: the copied state transition differs from the linked fork's core/state_transition.go only in the documented deviation classes, StateDB mutators touch accounts on every path, committed-state reads use the original context, EIP-158/6780 destruction conditions, refund counter guards, the block-context wiring, deep copies standing in for go-ethereum's access-list/transient-storage journal, and that the zero address is not pre-warmed.",
+   text="Behavioural equivalence with go-ethereum over all programs is not statically decidable; decided are necessary structural conditions: the copied state transition differs from the linked fork's core/state_transition.go only in the documented deviation classes, StateDB mutators touch accounts on every path, committed-state reads use the original context, EIP-158/6780 destruction conditions, refund counter guards, the block-context wiring, deep copies standing in for go-ethereum's access-list/transient-storage journal, and that the zero address is not pre-warmed. Further structural clauses: statements of the copied transition sit under the same conditions as in go-ethereum (nesting); access-list preparation warms every listed address and key; Suicide zeroes the balance on every successful call; storage keys are injective in (address, slot).",
    note="Interpreter semantics, gas tables and the fork's upstream files are the trusted reference; restructuring the verbatim copy is reported (stated limit)."),
  "C03": dict(design="3.3", tech="struct-field census + snapshot/revert exhaustiveness + context-provenance over go/ssa",
    text="Decides that every piece of transaction-scoped mutable StateDB state is captured by Snapshot and restored by RevertToSnapshot through a deep copy, and that every store access of the StateDB and of every custom precompile goes through the StateDB's current cache context (so reverting the context reverts other modules' writes too). Covers the field somebody adds next month and every precompile path, which sampled tests cannot. Does not decide the algebra of nested snapshot ids over all interleavings.",
    note="Trusts the SDK's CacheContext/cachekv to isolate writes until the write closure is called."),
  "C04": dict(design="3.4", tech="who-may-call census of bank mint/burn entry points + credit/debit pairing over go/ssa + call-graph effect search from precompile executors",
-   text="Decides the structural carrier of supply conservation: coins are minted/burnt by the EVM module only inside the StateDB's paired mint+send / send+burn helpers with one coins value, every AddBalance credit in repo and fork code is paired with a debit of the same value (or is the documented gas refund), the paid-fee flag is raised only by the fee decorator on the Ethereum lane, and no precompile can reach MintCoins. Suicide debits the whole balance on every successful path and the refund is priced at the purchase price. Numeric supply equality is not decided.",
+   text="Decides the structural carrier of supply conservation: coins are minted/burnt by the EVM module only inside the StateDB's paired mint+send / send+burn helpers with one coins value, every AddBalance credit in repo and fork code is paired with a debit of the same value (or is the documented gas refund), the paid-fee flag is raised only by the fee decorator on the Ethereum lane, and no precompile can reach MintCoins. Suicide debits the whole balance on every successful path and the refund is priced at the purchase price. Numeric supply equality is not decided. The balances CreateAccount re-mints are burnt by DestroyAccount on every exit, and an Ethereum message cannot reach execution without the fee-deducting lane (authz screen).",
    note="x/bank arithmetic trusted. Known finding F4 (refund minted rather than taken from the fee collector) is recorded, not repaired: an unedited test encodes it."),
  "C05": dict(design="3.5", tech="PAIR / provenance rules over go/ssa on gas-meter reset, refund quotient and price sources",
-   text="The arithmetic law charge = gasUsed x price quantifies over runtime values and is not decided. Decided necessary conditions: ante deduction and refund are priced from the same fee-market base fee, every exit of ApplyTransaction after message application resets the gas meter exactly once with the right operand, the refund quotient constant is selected by London, the gas limit installed equals the transaction's, ResetGasMeterAndConsumeGas has refund-then-consume shape, the sender's refund is computed from the final remaining gas, and cumulative gas is own gas plus the slots of the preceding transactions.",
+   text="The arithmetic law charge = gasUsed x price quantifies over runtime values and is not decided. Decided necessary conditions: ante deduction and refund are priced from the same fee-market base fee, every exit of ApplyTransaction after message application resets the gas meter exactly once with the right operand, the refund quotient constant is selected by London, the gas limit installed equals the transaction's, ResetGasMeterAndConsumeGas has refund-then-consume shape, the sender's refund is computed from the final remaining gas, and cumulative gas is own gas plus the slots of the preceding transactions. The ante handler deducts the effective fee (the price the refund uses), and per-transaction flags/slots are keyed by the transaction index only after the transaction was counted.",
    note="Does not decide intrinsic <= used <= limit or the one-fifth bound as numbers."),
  "C06": dict(design="3.6", tech="MUST-PASS (edge-deletion dominance) and PAIR rules over go/ssa on the ante chain and msg server",
    text="Decides, for every path of the admission code at once, that an Ethereum transaction reaches the next decorator only after sender recovery under the chain's EIP-155 signer succeeded, the declared sender equals the recovered one, the nonce strictly equals the account sequence, the transaction is replay-protected and validated, and that the ante nonce increment and its execution-side undo are paired (increment -> store -> flag; undo only under the flag -> store -> flag reset -> execution; both sides are followed into single-call-site private helpers), and that every accepted state transition re-applies the nonce. Chain order of the decorators is checked from the chain literal.",
    note="ecrecover and the SDK's Cosmos-lane signature decorators are trusted; numeric nonce trajectories are not decided."),
  "C07": dict(design="3.7", tech="census of AnteDecorator implementers vs chain literal; MUST-PASS lane-guard dominance over go/ssa; table agreement with the SDK vesting MsgServer",
-   text="Decides the structural composition of the dual-lane ante chain for all transactions at once: every lane decorator is in the chain exactly once; lane-sensitive operations are dominated by the correct edge of the lane predicate; the foreign lane falls straight through; each Ethereum-shape restriction named by the property is enforced by an error-returning guard before fee deduction; the authz screen recurses with depth+1, refuses grants and nested disabled messages, errors past the depth limit, and the default disabled list covers MsgEthereumTx and every request type of the SDK vesting MsgServer.",
+   text="Decides the structural composition of the dual-lane ante chain for all transactions at once: every lane decorator is in the chain exactly once; lane-sensitive operations are dominated by the correct edge of the lane predicate; the foreign lane falls straight through; each Ethereum-shape restriction named by the property is enforced by an error-returning guard before fee deduction; the authz screen recurses with depth+1, refuses grants and nested disabled messages, errors past the depth limit, and the default disabled list covers MsgEthereumTx and every request type of the SDK vesting MsgServer. 'Must be empty/zero' guards are exact for every value of the field (no ordering test on a sign-converted value).",
    note="The guard structure of the two lane predicates (HasSingleEthereumMessage / IsEthereumTx) is decided by R6, their full truth table is not; re-check paths are assumed to carry bytes that already passed the guards."),
  "C08": dict(design="3.8", tech="call-graph effect search (VTA) from query handlers; constant/provenance rules over go/ssa on commit flags and the simulation context",
-   text="Decides structural isolation: pure gRPC queries reach no store write, event or global write; EthCall/EstimateGas pass commit=false and CommitMultiStore is reachable only under commit; the mempool trial execution works only on a CacheContext whose write closure is discarded; each block-context request field reaches the EVM block context by data flow. the gas estimator's 'nothing passed' sentinel is the bound it searched and that bound is re-executed. 'Predicts execution' in general is behavioural and not decided.",
+   text="Decides structural isolation: pure gRPC queries reach no store write, event or global write; EthCall/EstimateGas pass commit=false and CommitMultiStore is reachable only under commit; the mempool trial execution works only on a CacheContext whose write closure is discarded; each block-context request field reaches the EVM block context by data flow. the gas estimator's 'nothing passed' sentinel is the bound it searched and that bound is re-executed. 'Predicts execution' in general is behavioural and not decided. The flag raised only on delivery conditions nothing but the sender's refund credit, and StateDB writes never go to the caller's original context.",
    note="TraceTx/TraceBlock commit on the SDK's discarded query context (assumption). Call graph = VTA."),
  "C09": dict(design="3.9", tech="interval/guard analysis of the EIP-1559 divisor, provenance of the header fields, MUST-PASS admission rules over go/ssa",
    text="The EIP-1559 function lives in the (trusted) dependency; decided is that it is fed from the block gas meter / params / height, that its gas-limit operand cannot make the gas target zero (divisor guard), that the result is clamped by the minimum gas price, stored and emitted as the same value from an end-blocker that is wired, and that the admission rule rejects prices below max(base fee, global minimum) with the node-local term confined to CheckTx, that the fee actually charged is the fee whose price was checked, and that message-dispatching end-blockers (gov) run before the fee market's. Numeric results are not decided.",
    note="misc.CalcBaseFee trusted (upstream)."),
  "C10": dict(design="3.10", tech="MUST-PASS + provenance over go/ssa on the ERC-20 executors; who-may-call census of bank mutators and allowance writers",
-   text="Decides authorisation and single-mover structure for every caller/amount at once: bank mutators are reached only through the one transfer helper, whose source is the caller or a holder whose allowance was spent for the same amount by the caller; allowance writes only in approve/spendAllowance with the unlimited case untouched; exactly one Transfer/Approval log per success path; views read the bank of the contract's denomination. The allowance key must be scoped by the token contract (today it is not: recorded known finding F10a) and the StateDB emptiness test must cover all denominations; the allowance key is an injective encoding of (owner, spender). Balance arithmetic (x/bank) is trusted.",
+   text="Decides authorisation and single-mover structure for every caller/amount at once: bank mutators are reached only through the one transfer helper, whose source is the caller or a holder whose allowance was spent for the same amount by the caller; allowance writes only in approve/spendAllowance with the unlimited case untouched; exactly one Transfer/Approval log per success path; views read the bank of the contract's denomination. The allowance key must be scoped by the token contract (today it is not: recorded known finding F10a) and the StateDB emptiness test must cover all denominations; the allowance key is an injective encoding of (owner, spender); wrappers of spendAllowance are judged by summary. Balance arithmetic (x/bank) is trusted.",
    note="Atomicity relies on C03 (revert of the cache context) and on the fork reverting the snapshot on precompile error (decided by R6). Value identity is structural (a copied amount is not recognised as the same amount)."),
  "C11": dict(design="3.11", tech="provenance of the delegator argument + MUST-PASS on caller/signature guards over go/ssa; effect census of store writers",
-   text="Decides who the delegator can be (only the caller, or a signed message's delegator that equals the caller and verifies under EIP-712 for the EVM's chain id), that mutations go through the SDK's own message servers, that logs are derived from the SDK events after the mutation, and that the EIP-712 typed data covers every message field. Numerical equality with native staking is not decided.",
+   text="Decides who the delegator can be (only the caller, or a signed message's delegator that equals the caller and verifies under EIP-712 for the EVM's chain id), that mutations go through the SDK's own message servers, that logs are derived from the SDK events after the mutation, and that the EIP-712 typed data covers every message field. Numerical equality with native staking is not decided. Views reach no write and never accumulate individually rounded values.",
    note="SDK staking/distribution msg servers trusted."),
  "C12": dict(design="3.12", tech="call-graph effect search (VTA) from every precompile executor, constant folding of ReadOnly()/RequireGas()",
    text="Decides for all inputs that every executor declared read-only reaches no store write, event or log; every executor that can write is declared non-read-only with non-zero gas; the dispatcher refuses non-read-only methods in read-only mode and charges gas first; method flags are copied from the executor they wrap. The fork's failure to inherit the interpreter's read-only flag for CALL-from-STATICCALL (F12a, dependency) is a recorded known finding.",
    note="Isolation exemption: calls on a CacheContext whose write closure is discarded are write-free."),
  "C13": dict(design="3.13", tech="unit (dimension) provenance over go/ssa on receipt fields; PAIR rules on the transient counters",
-   text="Decides that gas-dimension sinks (cumulative gas, gas-used transient) are fed only by gas sources and log-dimension sinks (log index, log count) only by log sources, that Log.Index has a writer fed by the block-level log counter, that every counted transaction gets a receipt and gas entry, status/contract-address conditions, and bloom derivation; every outcome of a counted transaction stores its gas and log-count slots, writer and reader of a slot use one key function, and the slot keys are injective in the transaction index. The running-sum law as numbers is not decided.",
+   text="Decides that gas-dimension sinks (cumulative gas, gas-used transient) are fed only by gas sources and log-dimension sinks (log index, log count) only by log sources, that Log.Index has a writer fed by the block-level log counter, that every counted transaction gets a receipt and gas entry, status/contract-address conditions, and bloom derivation; every outcome of a counted transaction stores its gas and log-count slots, writer and reader of a slot use one key function, and the slot keys are injective in the transaction index. The running-sum law as numbers is not decided. Slot keys are injective in the transaction index and the index is used only after counting.",
    note=""),
  "C14": dict(design="3.14", tech="table agreement between event writers and readers; batch-discipline and field-writer rules over go/ssa in the indexer",
    text="Mostly a history/value property; decided necessary conditions: every event attribute key the JSON-RPC readers require is emitted by the consensus-side writers on all paths using the same constants; all indexer DB mutations go through one batch written once; IndexBlock is a function of its arguments; TxResult fields are wired to height / position / Ethereum counter. Field-by-field RPC agreement and crash convergence beyond the atomic batch are not decided.",
    note=""),
  "C15": dict(design="3.15", tech="MUST-PASS dominance of the destroy guard, who-may-call census, provenance of the time source over go/ssa",
-   text="Decides that account removal, burn and storage deletion in DestroyAccount are dominated by the protected-account test (module accounts, unexpired vesting by block time), that nothing else removes accounts, that emptiness tests code, all balances (every denomination), nonce and storage, that destruction removes all four parts, and that debits go through the bank entry that enforces vesting locks.",
+   text="Decides that account removal, burn and storage deletion in DestroyAccount are dominated by the protected-account test (module accounts, unexpired vesting by block time), that nothing else removes accounts, that emptiness tests code, all balances (every denomination), nonce and storage, that destruction removes all four parts, and that debits go through the bank entry that enforces vesting locks. The storage-iteration helper hands every entry (also cleared slots) to the deletion callback.",
    note="x/bank's locked-coin enforcement trusted."),
  "C16": dict(design="3.16", tech="MUST-PASS dominance over go/ssa on the proof msg server and ValidateBasic; table agreement with the SDK vesting MsgServer; structural key-injectivity of the proof key builder",
-   text="Decides that a proof is stored only after validation, absence of an existing proof, and the fee being moved and burnt with one coins value; that ValidateBasic accepts only through a verified signature for the message's own account; that the vesting authorisation decorator covers every SDK vesting message and rejects unless a proof exists; that the proof store key is an injective encoding of the full account address (no truncating conversion) and the keeper's Save/Has/Get build it from their own address. Unforgeability of secp256k1 is not decided.",
+   text="Decides that a proof is stored only after validation, absence of an existing proof, and the fee being moved and burnt with one coins value; that ValidateBasic accepts only through a verified signature for the message's own account; that the vesting authorisation decorator covers every SDK vesting message and rejects unless a proof exists; that next() is reached only after the whole message list was inspected, that HasProof is exactly the existence of the record, that the proof store key is an injective encoding of the full account address (no truncating conversion) and the keeper's Save/Has/Get build it from their own address. Unforgeability of secp256k1 is not decided.",
    note=""),
  "C17": dict(design="3.17", tech="selector/ABI table agreement (keccak of embedded ABI signatures vs executor literals), MUST-PASS deploy authorisation, exhaustiveness census over go/types + go/ssa",
    text="Decides that deploy handlers run only after the whitelist check, uniqueness/no-downgrade guards dominate the writes, NewEVM exposes exactly the registered contracts without filtering, every executor's 4-byte selector equals keccak of the ABI method it packs/unpacks and its argument assertions match the ABI types, selectors are unique per contract, and every contract type constant has arms in validation and construction; the metadata and denomination-index keys are injective encodings of the contract address / denomination.",
    note="The engine computes Keccak-256 itself and parses the embedded ABI JSON."),
  "C18": dict(design="3.18", tech="store-prefix census: run-time writers vs ExportGenesis readers / InitGenesis writers over go/ssa",
-   text="Round-trip equality over reachable states is a history property and is not decided. Decided necessary condition: every persistent key prefix a custom module writes at run time is read by its ExportGenesis and written by its InitGenesis; export callbacks never stop an iteration early; every completed iteration of an InitGenesis loop visits the record's nested collections and no import branch depends on what the store already holds. The cpc metadata/index/allowance prefixes and vauth proofs are not exported today (F18a-d): recorded known findings whose repair needs new genesis proto fields.",
+   text="Round-trip equality over reachable states is a history property and is not decided. Decided necessary condition: every persistent key prefix a custom module writes at run time is read by its ExportGenesis and written by its InitGenesis; export callbacks never stop an iteration early and the iteration helpers hand every entry to their callback; InitGenesis writes through a frozen table of keeper writers with the parameters stored verbatim; deploy flags whose deployment takes its address from the module account sequence are exported as false; every completed iteration of an InitGenesis loop visits the record's nested collections and no import branch depends on what the store already holds. The cpc metadata/index/allowance prefixes and vauth proofs are not exported today (F18a-d): recorded known findings whose repair needs new genesis proto fields.",
    note=""),
  "C19": dict(design="3.19", tech="MUST-PASS on the verifier path and provenance of sign-doc fields over go/ssa; who-may-call census of non-standard derivation",
-   text="Binding and injectivity are statements about values of cryptographic functions and are not decided. Decided structural necessary conditions only: signature verification can return true only through crypto.VerifySignature over Keccak of the message or its EIP-712 rendering (the message reaches the digest argument only through the hash), the address is derived from the decompressed key, each sign-doc field flows into its own argument of the typed-data construction, and no non-BIP-32 derivation API is used.",
+   text="Binding and injectivity are statements about values of cryptographic functions and are not decided. Decided structural necessary conditions only: signature verification can return true only through crypto.VerifySignature over Keccak of the message or its EIP-712 rendering (the message reaches the digest argument only through the hash), the address is derived from the decompressed key, each sign-doc field flows into its own argument of the typed-data construction (the sequence is that of the only signer info), no non-BIP-32 derivation API is used, and the private scalar is never rendered with a variable-width encoder.",
    note="narrow claim; see DESIGN 3.19"),
  "C20": dict(design="3.20", tech="lockset analysis (guarded-by table, close/send discipline, lock order) and closed-channel loop rules over go/ssa; divisor and pairing obligations shared with C09/C13",
-   text="A union of clauses; decided statically: end/begin-block obligations (receipt for every counted tx, divisor, nil-meter guard), no send on a channel that another function closes unless the closing lock is held, guarded-by discipline for the RPC filter/pubsub/indexer shared maps, closed-channel receive cases leave their loops, user-input slicing is dominated by length guards, the lock acquisition graph is acyclic, a filter is removed from the API map under the lock before it is unsubscribed, and panicking payload accessors in the indexer run only after the dropped-transaction test. Helpers documented as 'caller holds the lock' inherit the locks held at all their call sites. Robustness of dependency decoders and liveness under all schedules are not decided.",
+   text="A union of clauses; decided statically: end/begin-block obligations (receipt for every counted tx, divisor, nil-meter guard), no send on a channel that another function closes unless the closing lock is held, guarded-by discipline for the RPC filter/pubsub/indexer shared maps, closed-channel receive cases leave their loops, user-input slicing is dominated by length guards, the lock acquisition graph is acyclic, a filter is removed from the API map under the lock before it is unsubscribed, and panicking payload accessors in the indexer run only after the dropped-transaction test. Helpers documented as 'caller holds the lock' inherit the locks held at all their call sites. Robustness of dependency decoders and liveness under all schedules are not decided. A variable captured by a goroutine and called through is assigned before the go statement and never after.",
    note=""),
 }
 
